@@ -158,10 +158,18 @@ def dispatchArgs (fs : Fields) : Option Bytes :=
 
 /-! ## the sections of `generateTemplate`, in the order of the source -/
 
-/-- main.go:112-117 -/
+/-- `a.Type.Kind == idl.TypeObject || a.Type.Kind == idl.TypeAlias`: the declaration is a Go type alias
+    (`type A = B`), because a defined type would lose json.RawMessage's MarshalJSON/UnmarshalJSON -/
+def isAliasDecl : Ty → Bool
+  | .object => true
+  | .named _ => true
+  | _ => false
+
+/-- main.go:112-121 -/
 def aliasDecl : Member → Option Bytes
   | .alias n d ty => (writeType ty true 0).map (fun t =>
-      writeDocString d ++ str "type " ++ n ++ str " " ++ t ++ str "\n\n")
+      writeDocString d ++ str "type " ++ n ++ str " " ++ (if isAliasDecl ty then str "= " else []) ++ t
+      ++ str "\n\n")
   | _ => some []
 
 /-- `e.Type` after main.go:97-101 (a missing type is an empty struct) -/
